@@ -1,6 +1,6 @@
 """C10 - Cleaning actions run at most once, exactly once by the time the Cleaner is gone."""
 from engine.graph import Super, fmt, strip, U_KINDS
-from engine import tables
+from engine import tables, graph
 from .common import *
 
 LEVEL = "other"
@@ -55,6 +55,10 @@ def check(R, F, P, cfg):
         allowed = {"weak::Weak::<T>::upgrade", "<cc::Cc<T> as std::ops::Deref>::deref", "<cc::Cc<T> as std::ops::Drop>::drop"}
         extra = [nm for nm in names if nm not in allowed]
         rms = [x for x in p.events if x.ci["k"] == "call" and x.ci["npath"].startswith("slotmap::SlotMap::<K, V>::remove")]
+        std_ok = ("std::cell::RefCell::<T>::try_borrow_mut", "std::ops::DerefMut::deref_mut", "std::ops::Deref::deref", "slotmap::SlotMap::<K, V>::remove", "std::mem::drop")
+        foreign = [x.ci["npath"] for x in p.events if x.ci["k"] == "call" and x.ci["kind"] == "std" and not x.ci["npath"].startswith(std_ok) and x.ci["npath"] not in graph.TRANSPARENT and not x.ci.get("exp")]
+        if foreign:
+            bad.append("other library calls %s" % foreign)
         if extra:
             bad.append("extra effects %s" % extra)
         upgraded = any(a[0] == "discr" and t in (("is", 1), ("not", 0)) and "upgrade" in fmt(a[1]) for a, t in p.literals)
@@ -76,7 +80,7 @@ def check(R, F, P, cfg):
 
     # ---- R10.4 -------------------------------------------------------------------------------------------------------
     R.doc("R10.4", "no Clone::clone on a Cc<CleanerMap> in the crate; the only owning field of that type is Cleaner.cleaner_map")
-    clones = P.call_sites(lambda c: c["npath"].endswith("Clone::clone") and any("CleanerMap" in s for s in c["term"]["callee"].get("substs", [])) and not any(s.startswith("weak::Weak") for s in c["term"]["callee"].get("substs", [])))
+    clones = P.call_sites(lambda c: (c["npath"].endswith("Clone::clone") or c["npath"].endswith("Clone>::clone")) and any("CleanerMap" in s for s in c["term"]["callee"].get("substs", [])) and not any(s.startswith("weak::Weak") for s in c["term"]["callee"].get("substs", [])))
     R.inst("R10.4", "map-never-cloned", not clones, "clones of Cc<CleanerMap>: %s" % ([f.npath for f, _, _ in clones] or "none"), cfg=cfg)
     owners = []
     for a in F.adts.values():
